@@ -53,13 +53,15 @@ CLAIMED["C01"] = (SCHED_TECH,
     "C01_order_once: in every history of every run (any DAG incl. duplicate dependencies and dependencies already finished at enqueue time, any N, both error "
     "modes, gated or not, any interleaving) a job that starts has not started before and every dependency it names has already ended without error; "
     "C01_transitive extends it to transitive dependencies. Proved through the countdown invariant of the loop (remaining = number of unfinished dependency "
-    "occurrences, consumers lists consistent, each job in exactly one place). Tie: trace conformance; direct start/end sequence numbers inside job bodies.",
+    "occurrences, consumers lists consistent, each job in exactly one place). Tie: trace conformance; direct start/end sequence numbers inside job bodies; "
+    "a scripted fan-in job with 70,000 (thorough: 140,000) unfinished dependencies must start once, after all of them.",
     SCHED_NOTE + " The generated code's dependency lists are tied separately (C02/C10/C11).", "DESIGN.md §7 C01")
 CLAIMED["C05"] = (SCHED_TECH,
     "C05_bounded: every action of caller, loop or worker strictly decreases a measure starting at 10*jobs+N+6 (only ticks and cancellations keep it), so every run "
     "performs at most that many scheduler actions; C05_progress: in every reachable non-final state some such action is enabled (gated dispatch) - no deadlock, no "
     "lost wake-up, Enqueue never blocks forever, also after an early exit. For every DAG, outcome assignment in {ok, error, Goexit}, N, mode, emitter, cancellation "
-    "instant. Tie: trace conformance incl. the final state; watchdog with a stable all-blocked goroutine dump on the real scheduler.",
+    "instant. Tie: trace conformance incl. the final state; watchdog with a stable all-blocked goroutine dump on the real scheduler; scripted executions - 1,100 jobs submitted while both workers are held, a caller that goes on "
+    "submitting 6.5 s after a fail-fast failure - and a second plan of executions under the timer-channel semantics of go >= 1.23 (a pending tick is always deliverable).",
     SCHED_NOTE + " Fairness of the Go scheduler (an enabled goroutine eventually runs) and 'every user function eventually returns' are assumed.", "DESIGN.md §7 C05")
 CLAIMED["C06"] = (SCHED_TECH,
     "C06_no_leak: a reachable state where no caller/loop/worker action is enabled is final (Wait returned, loop finished, every worker exited), C06_post_enabled: a "
